@@ -16,14 +16,14 @@ def one(spec):
     prop, n = parts[0], (parts[1] if len(parts) > 1 and parts[1] else '1')
     pkg = parts[2] if len(parts) > 2 and parts[2] else '.'
     race = len(parts) > 3 and parts[3] == 'race'
-    src = '/tmp/mut/' + prop
+    src = os.environ.get('MUT_DIR', '/tmp/mut') + '/' + prop
     diff = os.path.join(src, 'MUTANT%s.diff' % n)
     demo = os.path.join(src, 'mutant%s_demo_test.go.txt' % n)
     if not os.path.exists(diff) or not os.path.exists(demo):
         print(spec, 'missing diff or demo'); return
     tmp = tempfile.mkdtemp(prefix='imp-', dir='/var/tmp')
     wt = tmp + '/wt'
-    sid = 'B_%s_%s' % (prop, n)
+    sid = '%s_%s_%s' % (os.environ.get('MUT_PREFIX', 'B'), prop, n)
     try:
         run(['git', '-C', '/repo', 'worktree', 'add', '-q', '--detach', wt, 'HEAD'])
         info = {'id': sid, 'breaks': [prop], 'origin': 'independent sub-agent given only the property text and a scratch worktree (second round)'}
